@@ -1,5 +1,6 @@
 from __future__ import annotations
 
+import asyncio
 from contextvars import ContextVar, Token
 from enum import Enum
 from functools import wraps
@@ -48,41 +49,54 @@ class TransactionWrapper(Wrapper):
 
 
 class TransactionContextDecorator:
-    __slots__ = ["_mode", "_timeout", "_inner", "_return_token", "_tx"]
+    __slots__ = ["_mode", "_timeout", "_inner", "_started"]
 
     def __init__(self, mode: TransactionMode | None = None, timeout: float | None = None):
         self._mode = mode
         self._timeout = timeout
-        self._inner = 0  # how many blocks of this object are open on top of a transaction that was already running
-        self._return_token: Token | None = None
-        self._tx: Transaction | None = None
+        # One object may be entered by several tasks at once (`tx = cache.transaction()` kept at module level) and by one
+        # task several times (nested). What a block has to remember is therefore kept per transaction, not per object:
+        # how many open blocks of this object joined a transaction that was already running ...
+        self._inner: dict[Transaction, int] = {}
+        # ... and the transactions that blocks of this object started and that are still running.
+        self._started: dict[Transaction, tuple[Token, asyncio.Task | None]] = {}
 
     @property
     def current_tx(self) -> Transaction | None:
         return _transaction.get()
 
     async def __aenter__(self) -> Transaction:
-        if self.current_tx:
-            self._inner += 1
-            return self.current_tx
+        tx = self.current_tx
+        if tx:
+            self._inner[tx] = self._inner.get(tx, 0) + 1
+            return tx
         return self.start()
 
     def start(self) -> Transaction:
         tx = Transaction(self._mode, self._timeout)
-        self._tx = tx
-        self._return_token = _transaction.set(tx)
+        self._started[tx] = (_transaction.set(tx), asyncio.current_task())
         return tx
 
     def close(self):
-        self._tx = None
-        _transaction.reset(self._return_token)
+        tx = self.current_tx
+        if tx in self._started:
+            _transaction.reset(self._started.pop(tx)[0])
 
     async def __aexit__(self, exc_type, exc_value, exc_tb) -> None:
-        if self._inner:
+        tx = self.current_tx
+        if tx in self._inner:
             # an inner block (of this or of another object's transaction): the outermost one finishes it
-            self._inner -= 1
+            self._inner[tx] -= 1
+            if not self._inner[tx]:
+                del self._inner[tx]
             return
-        if not self._tx:
+        if tx not in self._started:
+            # left outside the context it was entered in (an abandoned call that is being finalized): the transaction
+            # of the current context is not ours - give up what this object started for tasks that are gone
+            for started, (_, task) in list(self._started.items()):
+                if task is None or task.done():
+                    del self._started[started]
+                    await started.rollback()
             return
         try:
             if not exc_tb:
@@ -101,12 +115,12 @@ class TransactionContextDecorator:
         return wrapper  # type: ignore[return-value]
 
     async def commit(self) -> None:
-        if self._tx:
-            await self._tx.commit()
+        if self.current_tx in self._started:
+            await self.current_tx.commit()
 
     async def rollback(self) -> None:
-        if self._tx:
-            await self._tx.rollback()
+        if self.current_tx in self._started:
+            await self.current_tx.rollback()
 
 
 class Transaction:
